@@ -73,6 +73,7 @@ const (
 	ParseCtxCancelled
 	TransformFromSQL
 	ConfigLoad
+	LintAllRules
 	NKinds
 )
 
@@ -81,13 +82,13 @@ var names = [...]string{"tokenize-direct", "tokenize-pooled", "gosqlx.Parse", "g
 	"parser.ValidateBytes", "parser.ParseBytesWithTokens", "parser.ParseWithDialect", "AST.SQL+Format", "formatter.Format",
 	"gosqlx.Extract*", "security.ScanSQL", "security.Scan", "linter.LintString", "errors.SuggestKeyword", "observe-stats",
 	"monitor.Record*", "ast.SetSpan/GetSpan", "Parser(strict).ParseFromModelTokens", "GetParser+ApplyOptions+Parse+PutParser",
-	"Parser.ParseFromModelTokensWithPositions", "gosqlx.ParseWithContext(cancelled at poll k)", "transform.Apply(AddWhereFromSQL/AddJoinFromSQL rule values shared across calls)", "config.LoadFromFileCached"}
+	"Parser.ParseFromModelTokensWithPositions", "gosqlx.ParseWithContext(cancelled at poll k)", "transform.Apply(AddWhereFromSQL/AddJoinFromSQL rule values shared across calls)", "config.LoadFromFileCached", "linter(all rules incl. L006/L009).LintString (race/crash only)"}
 
 func (k Kind) String() string { return names[k] }
 
 // Compared reports whether the operation's return value is a function of its
 // input alone (pure observers of global counters are not).
-func (k Kind) Compared() bool { return k != Observe && k != Monitor }
+func (k Kind) Compared() bool { return k != Observe && k != Monitor && k != LintAllRules }
 
 // TokenizesOnce: the operation tokenizes exactly its SQL input exactly once
 // when the input tokenizes (used for the harness-computed metrics truth).
@@ -162,6 +163,13 @@ func sortedSet(xs []string) string {
 	sort.Strings(ys)
 	return canon.Of(ys)
 }
+
+var allRulesLinter = linter.New(
+	whitespace.NewTrailingWhitespaceRule(), whitespace.NewMixedIndentationRule(), whitespace.NewConsecutiveBlankLinesRule(1),
+	whitespace.NewIndentationDepthRule(4, 4), whitespace.NewLongLinesRule(100), whitespace.NewRedundantWhitespaceRule(),
+	style.NewColumnAlignmentRule(), style.NewCommaPlacementRule(style.CommaTrailing), style.NewAliasingConsistencyRule(true),
+	lkeywords.NewKeywordCaseRule(lkeywords.CaseUpper),
+)
 
 var cfgFiles []string
 
@@ -375,6 +383,11 @@ func (o Op) Exec(hold bool) (res string, held []Held) {
 		}
 		_ = monitor.GetMetrics()
 		res = "monitored"
+	case LintAllRules:
+		// L006/L009 print map-order-dependent messages, so their output is not an
+		// observable; the shared rule values are still exercised for races
+		_ = allRulesLinter.LintString(o.SQL, "w.sql")
+		res = "linted"
 	case ConfigLoad:
 		if len(cfgFiles) == 0 {
 			res = "no-config-files"
